@@ -97,16 +97,25 @@ theorem foldl_addNonterm (acc : List Str) (st : RState) (h : RInv st) :
     rw [List.foldl_cons, h2, addNonterm_syms]
     simp [idsOf]
 
+theorem addFlexToken_inv (st : RState) (t : Str × Str) (h : RInv st) : RInv (addFlexToken st t) := by
+  unfold addFlexToken
+  split
+  · exact ⟨h.ids_iff, by rw [hasDup_append]; simpa [hasDup, Err.isDup] using h.dup_iff⟩
+  · exact addToken_inv _ _ _ h
+
+theorem foldl_inv_of {α} (f : RState → α → RState) (hf : ∀ st a, RInv st → RInv (f st a))
+    (l : List α) (st : RState) (h : RInv st) : RInv (l.foldl f st) := by
+  induction l generalizing st with
+  | nil => exact h
+  | cons a l ih => exact ih _ (hf st a h)
+
 theorem tokenPhase_inv (d : Decls) : RInv (tokenPhase d) := by
   unfold tokenPhase
-  dsimp only
-  generalize hst : addToken (addToken {} (cs ['e','o','i']) []) _ [] = st0
-  have h0 : RInv st0 := by
-    rw [← hst]; exact addToken_inv _ _ _ (addToken_inv _ _ _ rinv_empty)
-  clear hst
-  induction d.toks generalizing st0 with
-  | nil => exact h0
-  | cons t toks ih => exact ih _ (addToken_inv _ _ _ h0)
+  split
+  · exact foldl_inv_of _ addFlexToken_inv _ _
+      (addToken_inv _ _ _ (addToken_inv _ _ _ (addToken_inv _ _ _ rinv_empty)))
+  · exact foldl_inv_of _ (fun st t h => addToken_inv st t.1 (lexemeId t.2) h) _ _
+      (addToken_inv _ _ _ (addToken_inv _ _ _ rinv_empty))
 
 /-- `collectNonterms`: the error list grows, and a `dup` error is added iff a newly accepted
 nonterminal's ID is already in `ids`. -/
